@@ -38,6 +38,9 @@ ServiceEdges ==
   \cup Cross(SvcPau, {"pause"}) \cup {<<"pause", "available">>}        \* cascade of the owning appchain
   \cup Cross(SvcOut, {"logouting"}) \cup Cross({"logouting"}, {"forbidden"} \cup SvcOut)
   \cup Cross({"pause", "logouting"}, {"forbidden"})                    \* cleared when the appchain is logged out
+  \* resumed by the owning appchain while a proposal on the service had been suspended by the pause: the service is
+  \* unpaused and the proposal is re-opened in the same step (pause -> available -> status of that proposal)
+  \cup Cross({"pause"}, {"updating", "freezing", "activating", "logouting"})
 
 \* roles (governance admins, audit admins), internal/executor/contracts/role.go
 RoleFrz == {"available", "activating", "logouting"}
